@@ -70,6 +70,15 @@ func (c01) Gen(r *rand.Rand, tier string, run int) *core.Case {
 		c.Ops = append(c.Ops, core.Op{Kind: "msg", X: int64(1 + r.IntN(8)), Y: int64(sz),
 			S: fmt.Sprintf("%d %d %d %d %d %d", edge32(r), r.IntN(256), edge32(r), edge32(r), edge32(r), r.IntN(256))})
 	}
+	if r.IntN(8) == 0 {
+		// a message whose payload is not as long as its header says: refused
+		// by the writer, or written as what the header announces - the stream
+		// stays self-delimiting either way
+		at := r.IntN(len(c.Ops) + 1)
+		op := core.Op{Kind: "mismatch", X: int64(1 + r.IntN(8)), Y: int64([]int{0, 1, 32, 300}[r.IntN(4)]),
+			S: fmt.Sprintf("%d %d %d %d %d %d", edge32(r), r.IntN(256), edge32(r), edge32(r), edge32(r), r.IntN(256))}
+		c.Ops = append(c.Ops[:at:at], append([]core.Op{op}, c.Ops[at:]...)...)
+	}
 	switch r.IntN(6) {
 	case 0:
 		c.Ops = append(c.Ops, core.Op{Kind: "bad-magic", X: int64(edge32(r)), Y: int64(r.IntN(300))})
@@ -96,6 +105,30 @@ func (c01) Run(c *core.Case, env *core.Env) {
 	var pending []c01pending
 	pr := rand.New(rand.NewPCG(uint64(c.P("fragseed", 1)), 3))
 	for i, op := range c.Ops {
+		if op.Kind == "mismatch" {
+			var id, flags, service, object, action, fill uint32
+			fmt.Sscanf(op.S, "%d %d %d %d %d %d", &id, &flags, &service, &object, &action, &fill)
+			announced := int(op.Y)
+			actual := announced + []int{1, 6, 28, -1}[fill%4]
+			if actual < 0 {
+				actual = announced + 1
+			}
+			m := net.Message{Header: net.Header{Magic: net.Magic, ID: id, Size: uint32(announced), Type: uint8(op.X), Flags: uint8(flags), Service: service, Object: object, Action: action},
+				Payload: sio.Payload(actual, fill, nil)}
+			var w sio.RecWriter
+			err := m.Write(&w)
+			env.Probe("messages-whose-payload-is-not-the-announced-size")
+			if err == nil {
+				fs, consumed, perr := ref.ParseStream(w.Data)
+				if perr != nil || consumed != len(w.Data) || len(fs) != 1 || len(w.Data) != 28+announced {
+					env.Violate("layout/announced-size", "a message announcing %d bytes of payload and holding %d was written without an error as %d bytes: the stream is no longer a sequence of messages (parsed %d of them, %d bytes consumed, %v)", announced, actual, len(w.Data), len(fs), consumed, perr)
+					return
+				}
+				want = append(want, fs[0])
+				wire = append(wire, w.Data...)
+			}
+			continue
+		}
 		if op.Kind != "msg" {
 			continue
 		}
